@@ -82,15 +82,15 @@ namespace ratio
         }
     }
 
-    CORE_EXPORT void type::new_supertypes(type &t, const std::vector<type *> &sts) noexcept
+    CORE_EXPORT void type::new_supertypes(type &t, const std::vector<type *> &sts) { t.new_supertypes(sts); }
+    CORE_EXPORT void type::new_supertypes(const std::vector<type *> &sts)
     {
         for (const auto &st : sts)
-            t.supertypes.push_back(st);
-    }
-    CORE_EXPORT void type::new_supertypes(const std::vector<type *> &sts) noexcept
-    {
-        for (const auto &st : sts)
+        {
+            if (is_assignable_from(*st)) // `st` is this type or one of its subtypes: the hierarchy would become cyclic..
+                throw std::invalid_argument("cyclic inheritance involving type `" + name + "`..");
             supertypes.push_back(st);
+        }
     }
 
     CORE_EXPORT void type::new_constructors(const std::vector<constructor *> &cs) noexcept
